@@ -538,3 +538,39 @@ pub proof fn lemma_free_member(free: Seq<usize>, n: int, x: usize)
 {
     reveal(free_ok);
 }
+
+/// exit-point lemma of `new_node`: phrased over the map states only (no local variable of the body),
+/// so that it can be attached to every exit of the function
+pub proof fn lemma_new_node_exit<P: Prefix, T>(m0: PrefixMap<P, T>, m1: PrefixMap<P, T>)
+    requires m0.wf_free()
+    ensures
+        (m0.free@.len() > 0 && m1.free@ == m0.free@.drop_last() && m1.tab().len() == m0.tab().len()) ==>
+            m1.wf_free() && !m0.live().contains(m0.free@.last() as int) && 0 < m0.free@.last() < m0.tab().len()
+            && m1.live() =~= m0.live().insert(m0.free@.last() as int),
+        (m1.free@ == m0.free@ && m1.tab().len() == m0.tab().len() + 1) ==>
+            m1.wf_free() && !m0.live().contains(m0.tab().len() as int)
+            && m1.live() =~= m0.live().insert(m0.tab().len() as int),
+{
+    if m0.free@.len() > 0 && m1.free@ == m0.free@.drop_last() && m1.tab().len() == m0.tab().len() {
+        lemma_live_pop(m0.free@, m0.tab().len() as int);
+        let idx = m0.free@.last();
+        assert forall|i: int| m1.live().contains(i) == m0.live().insert(idx as int).contains(i) by {
+            if 0 <= i < m1.tab().len() && i != idx {
+                let x = i as usize;
+                assert(m1.tab().len() == m1.table.0.len());
+                assert(x != m0.free@.last());
+                assert(m1.free@.contains(x) == m0.free@.contains(x));
+            }
+        }
+    }
+    if m1.free@ == m0.free@ && m1.tab().len() == m0.tab().len() + 1 {
+        lemma_free_grow(m0.free@, m0.tab().len() as int, m1.tab().len() as int);
+        let idx = m0.tab().len() as int;
+        assert forall|i: int| m1.live().contains(i) == m0.live().insert(idx).contains(i) by {
+            if i == idx {
+                assert(m1.tab().len() == m1.table.0.len());
+                if m0.free@.contains(i as usize) { lemma_free_member(m0.free@, m0.tab().len() as int, i as usize); }
+            }
+        }
+    }
+}
